@@ -41,6 +41,8 @@ class Contract:
     loops: dict = {}
     max_paths = 400
     trusted: tuple = ()
+    branch_timeout_ms = 3000   # feasibility checks at branches (unknown = feasible)
+    cover_timeout_ms = 2500    # reachability covers (unknown is reported as such, never as reachable)
 
     @property
     def ident(self):
@@ -147,6 +149,7 @@ def verify_case(ident, case_index):
     out["span"] = [str(source.load_module(fi.module).path), fi.span[0], fi.span[1]]
     eng = make_engine(exclude_ident=ident, modular_keys=getattr(c, "modular_keys", None))
     eng.max_paths = c.max_paths
+    eng.branch_timeout_ms = c.branch_timeout_ms
 
     def body(run):
         run._verifying = c.key
@@ -223,7 +226,7 @@ def verify_case(ident, case_index):
                     pass
             out["obligations"].append(rec)
         for nm, assumptions, func, line in run.covers:
-            st = solve.is_sat(assumptions, timeout_ms=2500)
+            st = solve.is_sat(assumptions, timeout_ms=c.cover_timeout_ms)
             out["covers"].append(dict(name=nm, func=func, line=line, status=st, outcome=outcome[0]))
     out["trusted"] = sorted(trusted)
     out["trivial"] = eng.trivial
